@@ -837,6 +837,187 @@ def reuse_suite(world, pool, tier, rng):
 
 
 # =====================================================================================
+# random API programs with a fresh-twin oracle (C13, C14, C01, C05, C19)
+# =====================================================================================
+def programs_suite(world, pool, tier, rng):
+    """Long random programs over several checkers, builders, keys, callbacks, clocks and both providers.
+    Every answer is compared with the Lean model (which carries the whole state); independently, before a
+    sampled verify / generate the object's configuration history since its creation is replayed on a fresh
+    twin and the twin is asked the same question first: a verdict or a token that differs from the twin's
+    depends on something other than configuration, token and clock."""
+    metas = []
+    thorough = tier == "thorough"
+    nprog, plen = (1500, 70) if thorough else (110, 55)
+    base = 300
+    items = {}          # (key name, attr, private) -> (set, idx)
+    for name, key in pool.keys.items():
+        adm = key.admissible_algs()
+        for attr in (None, adm[0]):
+            for private in (True, False):
+                if key.kind == "oct" and not private:
+                    continue
+                items[(name, attr, private)] = world.add_key(base, key, private=private, alg_attr=attr)
+                base += 1
+    # token pool
+    payloads = [{"sub": "p"}, {"exp": 900}, {"exp": 50000, "iss": "good"}, {"nbf": 90000}, {"iss": "evil", "aud": "a"}, {}]
+    toks = []
+    by_key = {}          # key name -> tokens made with it (valid ones and near misses)
+    for name, key in pool.keys.items():
+        for alg in key.admissible_algs()[:2]:
+            prev_sig = None
+            for pl in payloads[:4]:
+                msg, sg = signed_token(pool, name, alg, payload=pl)
+                if sg is None:
+                    continue
+                mine = [msg + b"." + sg, msg + b"." + sg[:-3] + (b"AAA" if not sg.endswith(b"AAA") else b"BBB")]
+                if prev_sig is not None:
+                    mine.append(msg + b"." + prev_sig)        # another token's signature under this header and payload
+                prev_sig = sg
+                toks += mine
+                by_key.setdefault(name, []).extend(mine)
+    for pl in payloads:
+        toks.append(mk_token({"alg": "none"}, pl))
+    toks += [b"abc", b"a.b", b"..", seg({"alg": "HS256"}) + b"." + seg({}) + b".", seg({"typ": "x"}) + b".e30.", None]
+    item_list = list(items.items())
+    NCK, NBL = 3, 3
+    cbs_ck = ["-", "getalg", "cget:json:-", "ret:2", "hdel:-", "cset:int:%s:1:1" % hx(b"exp"), "hset:str:%s:%s:1" % (hx(b"alg"), hx(b"none")),
+              "hset:str:%s:%s:1" % (hx(b"alg"), hx(b"HS256")), "cdel:-", "hset:json:%s:%s:1" % (hx(b"crit"), hx(b'["x"]'))]
+    cbs_bl = ["-", "getalg", "cset:int:%s:7:1" % hx(b"k"), "ret:2", "hset:str:%s:%s:1" % (hx(b"kid"), hx(b"cb"))]
+
+    def rand_item():
+        (name, attr, private), it = rng.choice(item_list)
+        return name, attr, private, it
+
+    for pi in range(nprog):
+        cfg = {("ck", i): None for i in range(NCK)}
+        cfg.update({("bl", i): None for i in range(NBL)})
+        curkey = {}        # checker index -> name of the key it was last given (by setkey or callback)
+        world.op("clock 1000", tag="cfg")
+        world.op("prov name " + hx(b"openssl"), tag="cfg")
+        for i in range(NCK):
+            world.op("ck %d new" % (20 + i), tag="cfg")
+            cfg[("ck", i)] = []
+        for i in range(NBL):
+            world.op("bl %d new" % (20 + i), tag="cfg")
+            cfg[("bl", i)] = []
+        have_last = False
+        for step in range(plen):
+            r = rng.random()
+            if r < 0.30:                                   # configure a checker
+                i = rng.randrange(NCK)
+                c = rng.random()
+                if c < 0.35:
+                    name, attr, private, it = rand_item()
+                    curkey[i] = name
+                    a = rng.choice([0, 0, K.ALG_ORD[pool.keys[name].admissible_algs()[0]], rng.randrange(16)])
+                    line = "setkey %d %d %d" % ((a,) + it) if rng.random() < 0.9 else "setkey %d" % rng.choice([0, 1])
+                elif c < 0.5:
+                    line = rng.choice(["claimset iss " + hx(b"good"), "claimset aud " + hx(b"a"), "claimdel iss", "claimdel aud", "claimset sub " + hx(b"p")])
+                elif c < 0.65:
+                    line = "leeway %s %d" % (rng.choice(["exp", "nbf"]), rng.choice([-1, 0, 0, 5, 100000]))
+                elif c < 0.9:
+                    if rng.random() < 0.5:
+                        name, attr, private, it = rand_item()
+                        curkey[i] = name
+                        line = "setcb key:%d:%d,alg:%d" % (it + (rng.choice([0, 0, K.ALG_ORD[pool.keys[name].admissible_algs()[0]]]),))
+                    else:
+                        line = "setcb " + rng.choice(cbs_ck)
+                else:
+                    line = "new"
+                world.op("ck %d %s" % (20 + i, line), tag="cfg")
+                if line == "new":
+                    cfg[("ck", i)] = []
+                else:
+                    cfg[("ck", i)].append(line)
+            elif r < 0.50:                                 # configure a builder
+                i = rng.randrange(NBL)
+                c = rng.random()
+                if c < 0.4:
+                    name, attr, private, it = rand_item()
+                    a = rng.choice([0, 0, K.ALG_ORD[pool.keys[name].admissible_algs()[0]]])
+                    line = "setkey %d %d %d" % ((a,) + it) if rng.random() < 0.9 else "setkey 0"
+                elif c < 0.6:
+                    line = rng.choice(["cset str %s %s 1" % (hx(b"iss"), hx(b"good")), "cset int %s 5 0" % hx(b"n"), "cdel %s" % hx(b"n"),
+                                       "hset str %s %s 1" % (hx(b"kid"), hx(b"k")), "cset json - %s 1" % hx(b'{"exp":50000,"sub":"p"}'), "hdel -"])
+                elif c < 0.75:
+                    line = rng.choice(["iat 0", "iat 1", "offset exp 60", "offset exp 0", "offset nbf 5"])
+                elif c < 0.92:
+                    if rng.random() < 0.5:
+                        name, attr, private, it = rand_item()
+                        line = "setcb key:%d:%d,alg:%d" % (it + (rng.choice([0, K.ALG_ORD[pool.keys[name].admissible_algs()[0]]]),))
+                    else:
+                        line = "setcb " + rng.choice(cbs_bl)
+                else:
+                    line = "new"
+                world.op("bl %d %s" % (20 + i, line), tag="cfg")
+                if line == "new":
+                    cfg[("bl", i)] = []
+                else:
+                    cfg[("bl", i)].append(line)
+            elif r < 0.56:
+                world.op("clock %d" % rng.choice([0, 1000, 1000, 60000, 2 ** 31]), tag="cfg")
+            elif r < 0.60:
+                world.op("prov name " + hx(rng.choice([b"openssl", b"gnutls"])), tag="cfg")
+            elif r < 0.64:
+                world.op("ck %d errclr" % (20 + rng.randrange(NCK)), tag="cfg")
+            elif r < 0.78:                                 # generate (twin first, so that @last is the real one)
+                i = rng.randrange(NBL)
+                ref = None
+                if rng.random() < 0.6:
+                    world.op("bl 29 new", tag="cfg")
+                    for l in cfg[("bl", i)]:
+                        world.op("bl 29 " + l, tag="cfg")
+                    ref = len(world.ops)
+                    metas.append((ref, {"kind": "pgen", "role": "twin"}))
+                    world.op("bl 29 gen", tag="gen")
+                metas.append((len(world.ops), {"kind": "pgen", "role": "real", "ref": ref, "history": " / ".join(cfg[("bl", i)])[-200:]}))
+                world.op("bl %d gen" % (20 + i), tag="gen")
+                have_last = True
+            else:                                          # verify
+                i = rng.randrange(NCK)
+                use_last = have_last and rng.random() < 0.3
+                mine = by_key.get(curkey.get(i))
+                tok = None if use_last else (rng.choice(mine) if mine and rng.random() < 0.6 else rng.choice(toks))
+                arg = "@last" if use_last else hx(tok)
+                ref = None
+                if rng.random() < 0.6:
+                    world.op("ck 29 new", tag="cfg")
+                    for l in cfg[("ck", i)]:
+                        world.op("ck 29 " + l, tag="cfg")
+                    ref = len(world.ops)
+                    metas.append((ref, {"kind": "pverify", "role": "twin"}))
+                    world.op("ck 29 verify " + arg, tag="verify")
+                metas.append((len(world.ops), {"kind": "pverify", "role": "real", "ref": ref, "history": " / ".join(cfg[("ck", i)])[-200:],
+                                               "tok": "@last" if use_last else (tok[:30].decode("latin-1") if tok else "NULL")}))
+                world.op("ck %d verify %s" % (20 + i, arg), tag="verify")
+    world.op("prov name " + hx(b"openssl"), tag="cfg")
+    return metas
+
+
+def falsify_programs(m, out, eo=None):
+    if m["kind"] == "pverify":
+        c = c14_contract(out)
+        if c:
+            return "C14 contract broken: " + c
+        if m.get("ref") is not None and eo is not None and eo[m["ref"]] != "<crash>":
+            if field(out, "rc") != field(eo[m["ref"]], "rc"):
+                return "verdict rc=%s on a checker with a history, rc=%s on a fresh checker configured by the same calls [%s] (token %s)" % (
+                    field(out, "rc"), field(eo[m["ref"]], "rc"), m["history"], m["tok"])
+    elif m["kind"] == "pgen":
+        tokf, err, msg = field(out, "tok"), field(out, "err"), field(out, "msg")
+        if tokf is not None and ((tokf == "NULL") != (err == "1") or (err == "1" and msg != "1") or (tokf != "NULL" and msg != "0")):
+            return "generate returned %s with error flag %s, message-present %s" % ("NULL" if tokf == "NULL" else "a token", err, msg)
+        if m.get("ref") is not None and eo is not None and eo[m["ref"]] != "<crash>":
+            a, b = field(out, "tok"), field(eo[m["ref"]], "tok")
+            if a is not None and b is not None:
+                ha = a.rsplit("2e", 1)[0] if a != "NULL" else a          # header.payload part (hex of '.')
+                hb = b.rsplit("2e", 1)[0] if b != "NULL" else b
+                if (a == "NULL") != (b == "NULL") or ha != hb:
+                    return "a builder with a history generated %s..., a fresh builder configured by the same calls %s... [%s]" % (a[:48], b[:48], m["history"])
+    return None
+
+
+# =====================================================================================
 # C19: callbacks
 # =====================================================================================
 def callbacks_suite(world, pool, tier, rng):
